@@ -122,3 +122,12 @@ claim("C07", EXPRJ,
       "and integers of widths 1..256).",
       "TLC; CPython as evaluator of the emitted source; expressions with locations are excluded from the construction-source part",
       "DESIGN.md 5/C07", "ExprJudge")
+
+claim("C04", EXPRJ,
+      "TranslatorC output for random / rule-shaped expressions at native widths, odd widths and the bn_t path (65..256 bits), and "
+      "one operator at a time at 8/16/32/64/128 bits, is compiled with gcc against the working tree's op_semantics.c and bn.c and "
+      "run with boundary+random inputs (results on a separate descriptor); TLC judges every value against Expr.tla (the pivot "
+      "C03 ties to miasm's own constant evaluation); a crash, an endless loop or any byte on stdout is a violation.",
+      "TLC; gcc; MEM_LOOKUP_* stubbed with the environment's memory function; expressions the translator refuses, whose C does "
+      "not compile, or whose helper refuses the operand width at run time count as 'not accepted'; divisions by zero are not run",
+      "DESIGN.md 5/C04", "ExprJudge")
